@@ -222,6 +222,23 @@ fn long_buffers(ctx: &Ctx, rep: &mut Report) {
                         return Some(format!("(short lines, then padded columns; to {}x{} and back) {}: {}", c2, r2, v.oracle, d));
                     }
                 }
+                // third shape: a window that grows over a lot of history (rows come BACK from
+                // the scrollback), one of those rows gets longer text, then a width change
+                if n >= 20 {
+                    for grow in [rows * 2 + 1, rows * 6, n.min(200) + rows] {
+                        let mut vt = build_vt(cols, rows, None);
+                        let _ = vt.feed_str(&text);
+                        let _ = vt.resize(cols, grow);
+                        let _ = vt.feed_str(&format!("\x1b[{};1Hthis row has grown a lot xy\x1b[{};3H", grow / 3 + 1, grow));
+                        let mut out = Out::default();
+                        let t = format!("{} lines at 20x10, grown to 20x{}, a row rewritten", n, grow);
+                        if !resize_checked(&mut vt, 9, grow, &mut out, &t) || !resize_checked(&mut vt, 31, rows, &mut out, &t) {
+                            let v = &out.violations[0];
+                            let d: String = v.detail.chars().take(300).collect();
+                            return Some(format!("(grown to {} rows, a row rewritten, then narrowed) {}: {}", grow, v.oracle, d));
+                        }
+                    }
+                }
                 for (c2, r2) in [(33usize, 10usize), (7, 10), (20, 4), (40, 3)] {
                     let mut vt = build_vt(cols, rows, None);
                     let _ = vt.feed_str(&text);
@@ -437,6 +454,7 @@ fn alpha_mix(cfg: &Cfg) -> Vec<Op> {
         Op::resize(w.max(3) - 1, h),
         Op::resize(w * 2, h),
         Op::resize(w, h + 1),
+        Op::resize(w, h * 2 + 2),
         Op::resize(w, h),
     ]
 }
